@@ -446,8 +446,8 @@ impl Prop for RawStream {
             (true, Tier::Thorough, false) => 64,
             (false, Tier::Quick, true) => 4_000,
             (false, Tier::Quick, false) => 8_000,
-            (false, Tier::Thorough, true) => 200_000,
-            (false, Tier::Thorough, false) => 400_000,
+            (false, Tier::Thorough, true) => 100_000,
+            (false, Tier::Thorough, false) => 200_000,
         }
     }
     fn gen(&self, rng: &mut Rng, tier: Tier) -> RawCase {
